@@ -4,7 +4,7 @@ sys.path.insert(0, os.path.dirname(os.path.abspath(__file__)))
 import dfs_common as D
 
 def jobs(tier):
-    return D.bitstream_jobs(Job) + D.crc_jobs(Job)[:2] + D.hxc_jobs(Job)[:2] + (D.c05_extra(Job, tier) if hasattr(D, "c05_extra") else [])
+    return D.bitstream_jobs(Job) + D.crc_jobs(Job)[:2] + D.hxc_jobs(Job) + (D.c05_extra(Job, tier) if hasattr(D, "c05_extra") else [])
 
 META = {
     "trusted_base": D.DFS_TRUSTED,
